@@ -3,7 +3,8 @@
 Mapping-operation sequences on the real Index (native and composite keys, inline
 and file-backed values; update, key/value/item views, == and != with ordered
 and unordered mappings that are near misses of the contents, pickle/reopen
-handles) against DC.Model.Layers.Index; acceptor:
+handles) against DC.Model.Layers.Index; two or three clients with own handles
+on the same keys under the deterministic scheduler, linearized on that model; acceptor:
 collections.OrderedDict (keys under the documented key equality)."""
 import collections
 
@@ -165,6 +166,85 @@ def acceptor(hist, io):
     return None
 
 
+def conc_case(args):
+    """two or three clients, each with its own Index handle on one directory, work on the same one or
+    two keys (assignment, setdefault, deletion, pop, popitem, look-up) under the deterministic
+    scheduler; acceptor: linearizable on DC.Model.Layers.Index — each operation is atomic; the one
+    tolerated anomaly is C05's (a look-up overlapping a write of its key may miss)"""
+    import os
+    import random
+    import sys
+    sys.path.insert(0, os.path.dirname(os.path.dirname(os.path.abspath(__file__))))
+    import conc
+    seed, tier = args
+    rng = random.Random(seed)
+    cfg = {'mfs': 8, 'proto': 5}
+    keys = ['k', 'j']
+    big = b'B' * 20
+    preset = [{'m': 'setitem', 'now': 1000, 'k': k, 'v': rng.choice(['old', big])} for k in keys if rng.random() < 0.5]
+
+    def op():
+        m = rng.choice(['setitem', 'setdefault', 'setdefault', 'delitem', 'pop', 'popitem', 'getitem'])
+        o = {'m': m, 'now': 1000}
+        if m != 'popitem':
+            o['k'] = rng.choice(keys[:1] * 3 + keys[1:])
+        if m in ('setitem', 'setdefault'):
+            o['v'] = rng.choice(['mine', 'yours', big])
+        if m == 'pop':
+            o['hasdefault'] = 1
+        if m == 'popitem':
+            o['last'] = rng.choice([0, 1])
+        return o
+    n = rng.choice([2, 2, 3])
+    programs = {i: [op() for _ in range(rng.randint(1, 2))] for i in range(n)}
+    scheds = []
+    bound = 16 if tier == 'quick' else 60
+    for a in range(n):
+        for b in range(n):
+            if a != b:
+                for k in range(0, bound):
+                    scheds.append([a] * k + [b] * 300 + [a] * 300)
+    # two preemptions: a runs k steps, b runs j steps, a finishes, b finishes (windows inside a retry loop)
+    for k in range(1, 7 if tier == 'quick' else 12):
+        for j in range(1, 7 if tier == 'quick' else 12):
+            scheds.append([0] * k + [1] * j + [0] * 300 + [1] * 300)
+            scheds.append([1] * k + [0] * j + [1] * 300 + [0] * 300)
+    for _ in range(6 if tier == 'quick' else 40):
+        scheds.append(rng.choices(range(n), k=rng.randint(5, 80)))
+    out = []
+    for sch in scheds:
+        run = conc.run_concurrent_layer('index', cfg, preset, programs, sch)
+        why = conc.explain(run, programs, cfg)
+        out.append({'why': why, 'steps': run['steps'], 'sched': sch[:90] if why else None})
+    return {'seed': seed, 'programs': programs, 'preset': preset, 'results': out}
+
+
+BIG = b'B' * 20
+# minimized past failures run first.  D18 (fixed): setdefault re-added its default after another
+# client had popped the first copy — pop and setdefault both returned the value and it was still there
+CORPUS_CONC = [
+    {'name': 'D18', 'preset': [{'m': 'setitem', 'now': 1000, 'k': 'k', 'v': 'old'}],
+     'programs': {0: [{'m': 'pop', 'now': 1000, 'k': 'k', 'hasdefault': 1}],
+                  1: [{'m': 'delitem', 'now': 1000, 'k': 'k'}, {'m': 'setdefault', 'now': 1000, 'k': 'k', 'v': BIG}]},
+     'schedules': [[1] * k + [0] * 300 + [1] * 300 for k in range(8, 24)]},
+]
+
+
+def corpus_conc():
+    import conc
+    out = []
+    cfg = {'mfs': 8, 'proto': 5}
+    for c in CORPUS_CONC:
+        for sch in c['schedules']:
+            run = conc.run_concurrent_layer('index', cfg, c['preset'], c['programs'], sch)
+            why = conc.explain(run, c['programs'], cfg)
+            if why:
+                out.append({'seed': c['name'], 'preset': c['preset'], 'programs': c['programs'],
+                            'results': [{'why': why, 'sched': sch[:90], 'steps': run['steps']}]})
+                break
+    return out
+
+
 def run(tier, seed, rng, known, replay):
     if replay:
         return base.replay_file(replay, 'C12', ('result', 'state'), acceptor)
@@ -172,11 +252,26 @@ def run(tier, seed, rng, known, replay):
     hists = [gen_history(rng, rng.choice([10, 25, 60])) for _ in range(n)]
     r = base.check_histories('C12', hists, ('result', 'state'), acceptor=acceptor, known=known, runner=layers.layer_chunk)
     dist, distinct = base.op_distribution(hists, r['impl_out'])
+    from concurrent.futures import ProcessPoolExecutor
+    n_cases = 16 if tier == 'quick' else 200
+    jobs = [(rng.getrandbits(48), tier) for _ in range(n_cases)]
+    with ProcessPoolExecutor(max_workers=16) as ex:
+        cases = list(ex.map(conc_case, jobs, chunksize=1))
+    cases = corpus_conc() + cases
+    conc_runs = sum(len(c['schedules']) for c in CORPUS_CONC)
+    for c in cases:
+        for x in c['results']:
+            conc_runs += 1
+            if x['why'] and len(r['violations']) < 3:
+                what = 'concurrent Index operations are not atomic: ' + x['why']
+                r['violations'].append({'replay': {'property': 'C12', 'kind': 'concurrent-index', 'case_seed': c['seed'],
+                                                   'preset': base.tag(c['preset']), 'programs': base.tag(c['programs']), 'schedule': x['sched'],
+                                                   'acceptor': x['why']}, 'found_input': True, 'what': what})
     return {
-        'evaluations': sum(len(h['ops']) for h in hists), 'distinct_nontrivial': distinct,
-        'rule': 'seeded Index operation sequences (lengths 10-60) over native and composite keys (1 and 1.0 one key), inline and file-backed values; '
+        'evaluations': sum(len(h['ops']) for h in hists) + conc_runs, 'distinct_nontrivial': distinct + n_cases,
+        'rule': 'seeded Index operation sequences (lengths 10-60) over native and composite keys (1 and 1.0 one key), inline and file-backed values; scheduled clients with own handles on the same keys (single- and two-preemption schedules + random) linearized on the Lean model; '
                 'distinct = distinct (method, result) pairs',
         'samples': [base.sample(hists[0], r['impl_out'][0])], 'traces': len(hists),
-        'dist': dict(dist, histories=len(hists), divergent=r['divergent']),
+        'dist': dict(dist, histories=len(hists), divergent=r['divergent'], concurrent_cases=n_cases, concurrent_runs=conc_runs),
         'violations': r['violations'], 'known': r['known'],
     }
